@@ -19,6 +19,7 @@ import (
 	"github.com/algorand/go-algorand/ledger/store/trackerdb/sqlitedriver"
 	"github.com/algorand/go-algorand/logging"
 	"github.com/algorand/go-algorand/protocol"
+	"github.com/algorand/go-algorand/util/db"
 )
 
 const (
@@ -55,6 +56,12 @@ func c47OpenStores(baseDir string, genesis map[basics.Address]basics.AccountData
 	}
 	params := trackerdb.Params{InitProto: protocol.ConsensusCurrentVersion, InitAccounts: genesis}
 	for b := range st {
+		// no fsync per commit (what the ledger itself selects during catch-up); query logic is unaffected
+		if err = st[b].SetSynchronousMode(context.Background(), db.SynchronousModeOff, false); err != nil {
+			st[0].Close()
+			st[1].Close()
+			return
+		}
 		if _, err = st[b].RunMigrations(context.Background(), params, lg, trackerdb.AccountDBVersion); err != nil {
 			err = fmt.Errorf("%s RunMigrations: %w", c47BackendName[b], err)
 			st[0].Close()
@@ -85,6 +92,7 @@ type c47World struct {
 	m     *c47Model
 	refs  [2]map[basics.Address]trackerdb.AccountRef
 	addrs []basics.Address
+	busy  []uint64 // the applications most box keys of this case belong to
 	div   c47Div
 	trace []string
 
@@ -259,10 +267,13 @@ func (w *c47World) genStep(m2 *c47Model, si int) (ops []c47Op, desc string) {
 				})
 			}
 		case 8, 9, 10: // kv upsert
-			key := c47GenKey(rt, l("k"))
-			val := c47GenValue(rt, l("v"))
-			m2.kv[key] = val
-			add("UpsertKvPair "+c47Q(key), "kv", func(b int, wr *c47Writers) error { return wr.aw.UpsertKvPair(key, val) })
+			kn := rapid.IntRange(1, 3).Draw(rt, l("kn"))
+			for ki := 0; ki < kn; ki++ {
+				key := c47GenKey(rt, fmt.Sprintf("%sk%d", l(""), ki), w.busy)
+				val := c47GenValue(rt, fmt.Sprintf("%sv%d", l(""), ki))
+				m2.kv[key] = val
+				add("UpsertKvPair "+c47Q(key), "kv", func(b int, wr *c47Writers) error { return wr.aw.UpsertKvPair(key, val) })
+			}
 		case 11: // kv delete
 			keys := m2.sortedKeys()
 			if len(keys) == 0 {
